@@ -19,6 +19,8 @@ pub struct SyncSys {
     pub deletes: bool,
     /// include commits of several operations (create+set, delete+create+set)
     pub batches: bool,
+    /// commits containing operations that are invalid where they stand
+    pub messy: bool,
     /// start from a world in which T1{p=base} exists on every replica and is synced
     pub populated: bool,
     /// only the first `active` replicas act (the others stay brand-new until something syncs them)
@@ -48,6 +50,7 @@ impl SyncSys {
             undo_points: false,
             deletes: true,
             batches: false,
+            messy: false,
             populated: false,
             active: r,
             c01: true,
@@ -219,6 +222,12 @@ impl Sys for SyncSys {
             let obs = s.obs[r].clone();
             for &t in &self.tasks {
                 let present = obs.tasks.contains_key(&crate::world::replicas::tid(t));
+                if self.messy {
+                    out.push(Act::Messy { r, t });
+                    if !present {
+                        out.push(Act::Ghost { r, t });
+                    }
+                }
                 if !present {
                     if self.deletes || !self.populated {
                         out.push(Act::Create { r, t });
@@ -271,9 +280,9 @@ impl Sys for SyncSys {
                     self.multi_version.fetch_add(1, Ordering::Relaxed);
                 }
                 if let Err(e) = &out.result {
-                    return Err(format!("sync-failed: {}: {e}", act_str(a)));
+                    return Err(tag_known(&w, format!("sync-failed: {}: {e}", act_str(a))));
                 }
-                check_sync_step(self, latest, &before, &w, &out, *urg, *avoid)?;
+                check_sync_step(self, latest, &before, &w, &out, *urg, *avoid).map_err(|e| tag_known(&w, e))?;
             }
             _ => {
                 do_local(&mut w, a)?;
@@ -297,7 +306,7 @@ impl Sys for SyncSys {
         let mut nontrivial = (pending >= 1 && (behind >= 1 || pending >= 2)) || s.multi_version_syncs > 0;
         if self.c01 {
             for (i, o) in obs.iter().enumerate() {
-                replica_invariant(&w.chain, o, i)?;
+                replica_invariant(&w.chain, o, i).map_err(|e| tag_known(w, e))?;
             }
             quiesce(w)?;
         }
